@@ -14,7 +14,8 @@ package main
 //        says: signer not holding what the guard asks ⇒ err and unchanged.
 //
 // The payloads are valid, so that an authorised signer's message succeeds; the two handlers that need a
-// margin position (ForceClose, AdminClose) are only judged by `chk` lines (an authorised signer gets a
+// margin position (ForceClose, AdminClose) are judged exactly in the margin-world probes at the start and, once the
+// positions are closed, only by `chk` lines (an authorised signer gets a
 // "position not found" error there).
 
 import (
@@ -27,8 +28,10 @@ import (
 
 	sifapp "github.com/Sifchain/sifnode/app"
 	admintypes "github.com/Sifchain/sifnode/x/admin/types"
+	clpkeeper "github.com/Sifchain/sifnode/x/clp/keeper"
 	clptypes "github.com/Sifchain/sifnode/x/clp/types"
 	ethtypes "github.com/Sifchain/sifnode/x/ethbridge/types"
+	marginkeeper "github.com/Sifchain/sifnode/x/margin/keeper"
 	margintypes "github.com/Sifchain/sifnode/x/margin/types"
 	oracletypes "github.com/Sifchain/sifnode/x/oracle/types"
 	trtypes "github.com/Sifchain/sifnode/x/tokenregistry/types"
@@ -207,6 +210,37 @@ func authWorld(rng *Rng, n int, out *Out, replay string, variant int) {
 			out.Emit(fmt.Sprintf("%s %d%s", kind, len(items), descr), res, "branch."+kind+"."+res, true)
 		}
 
+		// the margin world: two unhealthy LONG positions, epoch length 10, height 13 (off the epoch boundary)
+		marginWorld(app, func(h int64) sdk.Context {
+			ctx = ctx.WithBlockHeight(h)
+			app.MarginKeeper.BeginBlocker(ctx)
+			return ctx
+		}, 10, 10)
+		// probes: every account sends MsgForceClose (position 1) and MsgAdminClose (position 2) on a branch that is never
+		// written back, so every probe meets the same state, in which an authorised signer's message succeeds
+		for _, hc := range cases {
+			if !hc.lenient {
+				continue
+			}
+			for i, a := range addrs {
+				cctx, _ := ctx.CacheContext()
+				stored := storedAuth(app, cctx, a)
+				before := hashStores(cctx, keys)
+				hc := hc
+				res := protect(func() string {
+					msg := hc.build(cctx, a.String(), i)
+					if _, err := app.MsgServiceRouter().Handler(msg)(cctx, msg); err != nil {
+						return "err"
+					}
+					return "ok"
+				})
+				changed := hashStores(cctx, keys) != before
+				out.Emit(fmt.Sprintf("chk c08.guard.%s.%s tag=auth.%s.%s %s %s %s %s %s", hc.module, hc.name, hc.module, hc.name, hc.module, hc.name, a.String(), res, b2s(changed)), "true", "chk.guard", false)
+				out.Emit(fmt.Sprintf("chk c08.stored.%s.%s tag=auth.stored.%s.%s %s %s %s %s", hc.module, hc.name, hc.module, hc.name, hc.module, hc.name, res, stored), "true", "chk.stored", false)
+				out.Emit(fmt.Sprintf("sim 1 %s %s %s - - -", hc.module, hc.name, a.String()), res, fmt.Sprintf("probe.%s.%s", hc.name, res), true)
+			}
+		}
+
 		// phase 1: the full matrix handler × signer on the initial table
 		k := 0
 		for _, hc := range cases {
@@ -328,6 +362,71 @@ func storedAuth(app *sifapp.SifchainApp, ctx sdk.Context, a sdk.AccAddress) stri
 	cv := ctx.KVStore(app.GetKey(clptypes.StoreKey)).Get(clptypes.WhiteListValidatorPrefix)
 	clp := bytes.Contains(cv, []byte(a.String()))
 	return r + " " + b2s(oracle) + " " + b2s(clp)
+}
+
+// probeTrader owns the two margin positions (ids 1 and 2) the ForceClose / AdminClose messages of the matrix name.
+var probeTrader string // set by marginWorld (after the bech32 prefixes are configured)
+
+// marginWorld prepares (set-up through the keepers and the real Open / Swap handlers, not part of the judged history) a
+// state in which MsgForceClose and MsgAdminClose SUCCEED for an authorised signer, so that for everybody else the guard
+// is the only thing that refuses: margin enabled on pool "xxx" (1e26 / 1e26), the given epoch length, safety factor
+// 1.05; the trader opens two 2x LONG positions with rowan collateral; a whale then swaps 6e25 xxx into the pool, the
+// price of xxx more than halves and both positions are unhealthy.  `at(h)` moves to block h (and runs what a block
+// start runs); the probes must happen at a height that is not a multiple of the epoch length.
+func marginWorld(app *sifapp.SifchainApp, at func(h int64) sdk.Context, h0 int64, epochLength int64) {
+	const ext = "xxx"
+	trader := sdk.AccAddress([]byte("c08_margin_trader___"))
+	probeTrader = trader.String()
+	whale := sdk.AccAddress([]byte("c08_margin_whale____"))
+	ctx := at(h0)
+	app.ClpKeeper.SetSwapFeeParams(ctx, clptypes.GetDefaultSwapFeeParams())
+	for _, d := range []string{ext, clptypes.NativeSymbol} {
+		app.TokenRegistryKeeper.SetToken(ctx, &trtypes.RegistryEntry{Denom: d, Decimals: 18, Permissions: []trtypes.Permission{trtypes.Permission_CLP}})
+	}
+	fund := "sif1syavy2npfyt9tcncdtsdzf7kny9lh777yqc2nd"
+	params := margintypes.Params{
+		LeverageMax: sdk.NewDec(2), InterestRateMax: sdk.NewDec(1), InterestRateMin: sdk.NewDecWithPrec(1, 1),
+		InterestRateIncrease: sdk.NewDecWithPrec(1, 1), InterestRateDecrease: sdk.NewDecWithPrec(1, 1), HealthGainFactor: sdk.NewDecWithPrec(1, 2),
+		EpochLength: epochLength, RemovalQueueThreshold: sdk.ZeroDec(), ForceCloseFundPercentage: sdk.NewDecWithPrec(1, 1), ForceCloseFundAddress: fund,
+		IncrementalInterestPaymentFundPercentage: sdk.NewDecWithPrec(1, 1), IncrementalInterestPaymentFundAddress: fund, IncrementalInterestPaymentEnabled: false,
+		PoolOpenThreshold: sdk.NewDecWithPrec(1, 1), MaxOpenPositions: 10000, SqModifier: sdk.MustNewDecFromStr("10000000000000000000000000"),
+		SafetyFactor: sdk.MustNewDecFromStr("1.05"), Pools: []string{ext}, WhitelistingEnabled: true, RowanCollateralEnabled: true,
+	}
+	app.MarginKeeper.SetParams(ctx, &params)
+	zeroA, zeroB := sdk.ZeroDec(), sdk.ZeroDec()
+	depth := sdk.NewUintFromString("100000000000000000000000000")
+	pool := clptypes.Pool{
+		ExternalAsset: &clptypes.Asset{Symbol: ext}, NativeAssetBalance: depth, ExternalAssetBalance: depth,
+		UnsettledExternalLiabilities: sdk.ZeroUint(), UnsettledNativeLiabilities: sdk.ZeroUint(), BlockInterestExternal: sdk.ZeroUint(), BlockInterestNative: sdk.ZeroUint(),
+		NativeCustody: sdk.ZeroUint(), ExternalCustody: sdk.ZeroUint(), NativeLiabilities: sdk.ZeroUint(), ExternalLiabilities: sdk.ZeroUint(), PoolUnits: sdk.ZeroUint(),
+		Health: sdk.OneDec(), InterestRate: sdk.NewDecWithPrec(1, 1), SwapPriceNative: &zeroA, SwapPriceExternal: &zeroB, RewardPeriodNativeDistributed: sdk.ZeroUint(),
+	}
+	must := func(err error) {
+		if err != nil {
+			panic("margin world: " + err.Error())
+		}
+	}
+	must(app.ClpKeeper.SetPool(ctx, &pool))
+	must(app.BankKeeper.MintCoins(ctx, clptypes.ModuleName, sdk.NewCoins(sdk.NewCoin(clptypes.NativeSymbol, sdk.Int(depth)), sdk.NewCoin(ext, sdk.Int(depth)))))
+	must(sifapp.AddCoinsToAccount(margintypes.ModuleName, app.BankKeeper, ctx, trader, sdk.NewCoins(sdk.NewCoin(clptypes.NativeSymbol, sdk.Int(sdk.NewUintFromString("4000000000000000000000"))))))
+	must(sifapp.AddCoinsToAccount(margintypes.ModuleName, app.BankKeeper, ctx, whale, sdk.NewCoins(sdk.NewCoin(ext, sdk.Int(sdk.NewUintFromString("60000000000000000000000000"))))))
+	app.MarginKeeper.WhitelistAddress(ctx, probeTrader)
+	ms := marginkeeper.NewMsgServerImpl(app.MarginKeeper)
+	ctx = at(h0 + 1)
+	for i := 0; i < 2; i++ {
+		_, err := ms.Open(sdk.WrapSDKContext(ctx), &margintypes.MsgOpen{Signer: probeTrader, CollateralAsset: clptypes.NativeSymbol,
+			CollateralAmount: sdk.NewUintFromString("1000000000000000000000"), BorrowAsset: ext, Position: margintypes.Position_LONG, Leverage: sdk.NewDec(2)})
+		must(err)
+	}
+	ctx = at(h0 + 2)
+	_, err := clpkeeper.NewMsgServerImpl(app.ClpKeeper).Swap(sdk.WrapSDKContext(ctx), &clptypes.MsgSwap{Signer: whale.String(), SentAsset: &clptypes.Asset{Symbol: ext},
+		ReceivedAsset: &clptypes.Asset{Symbol: clptypes.NativeSymbol}, SentAmount: sdk.NewUintFromString("60000000000000000000000000"), MinReceivingAmount: sdk.ZeroUint()})
+	must(err)
+	for id := uint64(1); id <= 2; id++ {
+		if _, err := app.MarginKeeper.GetMTP(at(h0+3), probeTrader, id); err != nil {
+			panic("margin world: position missing: " + err.Error())
+		}
+	}
 }
 
 // roleGenesis writes the three role stores into the genesis file, in a mix of spellings:
@@ -644,10 +743,10 @@ func mkCases(app *sifapp.SifchainApp, addrs []sdk.AccAddress) []handlerCase {
 			return &margintypes.MsgDewhitelist{Signer: s, WhitelistedAddress: anySpelling(k, k)}
 		}},
 		{module: "margin", name: "ForceClose", lenient: true, build: func(c sdk.Context, s string, k int) sdk.Msg {
-			return &margintypes.MsgForceClose{Signer: s, MtpAddress: addrs[11].String(), Id: 1}
+			return &margintypes.MsgForceClose{Signer: s, MtpAddress: probeTrader, Id: 1}
 		}},
 		{module: "margin", name: "AdminClose", lenient: true, build: func(c sdk.Context, s string, k int) sdk.Msg {
-			return &margintypes.MsgAdminClose{Signer: s, MtpAddress: addrs[11].String(), Id: 1, TakeMarginFund: k%2 == 0}
+			return &margintypes.MsgAdminClose{Signer: s, MtpAddress: probeTrader, Id: 2, TakeMarginFund: k%2 == 0}
 		}},
 		{module: "margin", name: "AdminCloseAll", build: func(c sdk.Context, s string, k int) sdk.Msg {
 			return &margintypes.MsgAdminCloseAll{Signer: s, TakeMarginFund: k%2 == 0}
